@@ -1432,6 +1432,14 @@ class Interp:
             i, tag = lams[0][1], lams[0][2]
             inner = [self.elem(a, i) if (a[0] == "lam" or self.shares_axis(a, tag)) else a for a in args]
             return ("lam", i, tag, self.pointwise(name, inner))
+        if name == "minimum" and len(args) == 2:
+            # minimum(maximum(x, lo), hi) is clip(x, lo, hi) by definition (numpy / jax define clip that way); lo is the constant operand
+            for mx, hi in ((args[0], args[1]), (args[1], args[0])):
+                if mx[0] == "app" and mx[1] in ("max_of", "maximum") and len(mx[2]) == 2 and not (hi[0] == "app" and hi[1] in ("max_of", "maximum")):
+                    nums = [a for a in mx[2] if is_num(a)]
+                    if len(nums) == 1:
+                        x = [a for a in mx[2] if not is_num(a)][0]
+                        return self.pointwise("clip", [x, nums[0], hi])
         if name in ("maximum", "minimum") and len(args) == 2 and not any(self.axes_of(a) for a in args):
             # of two scalars: the same value as max / min over the two-element literal [a, b]
             return ("app", name[:3] + "_of", tuple(sorted(args, key=repr)))
